@@ -95,7 +95,100 @@ def state_cases(gen: Any, rng: Any, n_classes: int, n_inst: int) -> dict[str, An
             inp = f"(ce_all, {ts}, cls_{cd.cid}, {gen.render(x, ('c', cd.cid))})"
             cases.append((inp, f"({first}, ({out[0]}, {out[1]}))"))
             stats["state_cases"] += 1
+    seq = transient_sequences(gen, rng, max(12, n_classes // 3))
+    violations.extend(seq["violations"])
+    stats.update(seq["stats"])
     return {"have_msgpack": have, "cases": cases, "violations": violations, "stats": stats}
+
+
+MUTABLE_TRANSIENTS = [
+    ("transient", ("l", ("s", "int")), ("LEmptyList", list, True)),
+    ("transient", ("d", ("s", "str"), ("s", "int")), ("LEmptyDict", dict, True)),
+    ("transient", ("fs", ("s", "int")), ("LEmptySet", set, True)),
+]
+
+
+def _mutate(obj: Any, name: str) -> None:
+    """What a Transient scratch field is for: in-place use by the instance that owns it."""
+    v = getattr(obj, name)
+    if isinstance(v, list):
+        v.append(7)
+    elif isinstance(v, dict):
+        v["scratch"] = 1
+    elif isinstance(v, set):
+        v.add(3)
+
+
+def transient_sequences(gen: Any, rng: Any, n_classes: int) -> dict[str, Any]:
+    """decode -> mutate the decoded instance's mutable transient fields in place -> decode again, on every codec path.
+
+    Oracle (the property's own predicate, applied to a SEQUENCE of decodes): every decode equals the original on all
+    fields including a fresh transient default; the compact decode equals the Arrow decode; no two decoded instances
+    (nor a decoded instance and the original) share a mutable transient object.
+    """
+    from harness import c03_types as H
+    from vgi_rpc import utils as U
+    from vgi_rpc.http.server import _state_token as ST
+    from vgi_rpc.utils import IpcValidation
+
+    violations: list[dict[str, Any]] = []
+    stats = {"transient_sequences": 0, "transient_sequences_compact": 0, "transient_decodes": 0}
+    for i in range(n_classes):
+        flat = rng.random() < 0.7
+        force: list[Any] = []
+        for _ in range(rng.choice([0, 1, 2, 3])):
+            T = gen.gen_scalar()
+            force.append(("o", T) if rng.random() < 0.3 else T)
+        if not flat:
+            force.append(("l", gen.gen_scalar()))
+        for tr in rng.sample(MUTABLE_TRANSIENTS, rng.choice([1, 1, 2, 3])):
+            force.insert(rng.randrange(len(force) + 1), tr)
+        cd = gen.gen_class(1, force=force)
+        tnames = [f.name for f in cd.fields if f.kind == "transient"]
+        x1, x2 = gen.gen_instance(cd), gen.gen_instance(cd)
+        paths: dict[str, tuple[Any, Any]] = {
+            "arrow": (lambda x: x.serialize_to_bytes(), lambda b: cd.pycls.deserialize_from_bytes(b)),
+            "state-bytes": (lambda x: ST._serialize_state_bytes(x, cd.pycls),
+                            lambda b: ST._deserialize_state_bytes(*ST._resolve_state_cls(b, cd.pycls), IpcValidation.FULL)),
+        }
+        if U.serialize_compact(x1) is not None:
+            paths["compact"] = (lambda x: U.serialize_compact(x), lambda b: U.deserialize_compact(cd.pycls, b))
+            stats["transient_sequences_compact"] += 1
+        decoded: dict[str, Any] = {}
+        for path, (enc, dec) in paths.items():
+            replay = {"class": describe(gen, cd), "path": path, "instance": repr(x1)[:400], "second_instance": repr(x2)[:400], "msgpack": bool(U._HAVE_MSGPACK),
+                      "sequence": "y1 = decode(encode(x1)); mutate y1's transient fields in place; y2 = decode(encode(x1)); y3 = decode(encode(x2))"}
+            try:
+                b1 = enc(x1)
+                y1 = dec(b1)
+                ok1 = H.deep_eq(y1, x1)
+                for nme in tnames:
+                    _mutate(y1, nme)
+                y2 = dec(b1)
+                y3 = dec(enc(x2))
+                stats["transient_decodes"] += 3
+            except Exception as e:  # noqa: BLE001
+                violations.append({"key": f"{path}-decode-sequence-raises-{type(e).__name__}", "what": f"decode sequence failed: {type(e).__name__}: {str(e)[:200]}", "replay": replay})
+                continue
+            decoded[path] = y2
+            if not ok1:
+                violations.append({"key": H.finding_key(gen, cd, x1, y1), "what": f"{path}: first decode differs from the instance", "replay": {**replay, "decoded": repr(y1)[:400]}})
+            for label, y, x in (("y2", y2, x1), ("y3", y3, x2)):
+                if not H.deep_eq(y, x):
+                    violations.append({"key": f"{path}-decode-polluted-by-earlier-instance-transient-mutation",
+                                       "what": f"{path}: a decode made after an earlier decoded instance mutated its transient field in place does not equal the original instance",
+                                       "replay": {**replay, "which": label, "decoded": repr(y)[:400]}})
+            for nme in tnames:
+                objs = [getattr(o, nme) for o in (x1, x2, y1, y2, y3)]
+                if len({id(o) for o in objs}) != len(objs):
+                    violations.append({"key": f"{path}-decoded-instances-share-mutable-transient-default",
+                                       "what": f"{path}: two instances share one mutable transient object (field {nme})", "replay": {**replay, "field": nme}})
+        if "compact" in decoded and "arrow" in decoded and not H.deep_eq(decoded["compact"], decoded["arrow"]):
+            violations.append({"key": "compact-decodes-differently-from-arrow-after-transient-mutation",
+                               "what": "after a decoded instance mutated its transient field, the compact codec and the Arrow codec decode the same instance to different objects",
+                               "replay": {"class": describe(gen, cd), "instance": repr(x1)[:400], "compact": repr(decoded["compact"])[:400], "arrow": repr(decoded["arrow"])[:400]}})
+        stats["transient_sequences"] += 1
+    return {"violations": violations, "stats": stats}
 
 
 def describe(gen: Any, cd: Any) -> dict[str, Any]:
